@@ -490,7 +490,7 @@ def run_impl(case, timeout=90.0):
         ce_module.measure_quasi_distributions = recording
     ce_module.measure_quasi_distributions.sink = quasi_sums
     thread_of = {}
-    repeat_mismatch, mutated, sequence = {}, {}, {}
+    repeat_outs, mutated, sequence = {}, {}, {}
 
     sampler = kind != "est"
     raw = exactprims.ExactSampler(mode=case["sampler_mode"], observer=observer) if sampler else exactprims.ExactEstimator(observer=observer)
@@ -526,9 +526,8 @@ def run_impl(case, timeout=90.0):
                 out = ev.evaluate_circuits(circuits, values)
                 outs.append([float(x) for x in out])
             results[ci] = outs[0]
-            later = [(r, o) for r, o in enumerate(outs) if len(o) != len(outs[0]) or any(abs(a - b) > 1e-12 for a, b in zip(o, outs[0]))]
-            if later:
-                repeat_mismatch[ci] = {"call": later[0][0] + 1, "first_call": outs[0], "that_call": later[0][1]}
+            if len(outs) > 1:
+                repeat_outs[ci] = outs   # compared in do_case with the value oracle's scale-relative tolerance, never bit for bit
             for si, step in enumerate(cl.get("sequence", [])):
                 sc = [build_circuit(n, g, len(p), name=f"c{ci}_s{si}_{i}", metadata={"caller": ci}) for i, (g, p) in enumerate(zip(step["circuits"], step["params"]))]
                 sv = [param_container(angle_values(case, p), t) for p, t in zip(step["params"], step["ptypes"])]
@@ -555,7 +554,7 @@ def run_impl(case, timeout=90.0):
             if t.is_alive():
                 results[ci] = ("EXC", "Hang", f"evaluate_circuits did not return within {timeout}s")
     ce_module.measure_quasi_distributions.sink = None
-    extra = {"sequence": sequence, "repeat_mismatch": repeat_mismatch, "mutated": mutated, "pub_shots": pub_shots, "quasi_sums": {ci: quasi_sums.get(t, []) for ci, t in thread_of.items()}}
+    extra = {"sequence": sequence, "repeat_outs": repeat_outs, "mutated": mutated, "pub_shots": pub_shots, "quasi_sums": {ci: quasi_sums.get(t, []) for ci, t in thread_of.items()}}
     return results, batches, extra
 
 
@@ -734,7 +733,7 @@ def do_case(ctx, case, want_gallina=True):
             break
     # the quasi-distribution every evaluator aggregates is normalised (exactly with the exact sampler)
     for c, sums in extra["quasi_sums"].items():
-        tol = 0.0 if case.get("sampler_mode") == "integer" else 1e-9
+        tol = 1e-12 if case.get("sampler_mode") == "integer" else 1e-9
         bad = [x for x in sums if abs(x - 1.0) > tol]
         if bad:
             ctx.violation("oracle", f"sampler:{case['stack_name']}:quasi-not-normalised",
@@ -764,7 +763,16 @@ def do_case(ctx, case, want_gallina=True):
                               f"(circuit counts of the calls so far: {[len(case['callers'][ci]['circuits'])] + [len(s_['circuits']) for s_ in steps[: si + 1]]})",
                               describe(case, ci, 0), detail={"sequence": outcomes, "steps": steps})
                 break
-    for ci, m in extra["repeat_mismatch"].items():
+    repeat_mismatch = {}
+    for ci, outs in extra["repeat_outs"].items():
+        # "up to the resolution of the primitive": a later call may differ from the first by float summation order; the
+        # tolerance is the one the value oracle uses for that position (relative to the objective's scale)
+        tols = [t for _, t in oracle_values(case, ci)]
+        for r, o in enumerate(outs[1:], start=2):
+            if len(o) != len(outs[0]) or (len(o) == len(tols) and any(not (abs(a - b) <= 2 * t) for a, b, t in zip(o, outs[0], tols))):
+                repeat_mismatch[ci] = {"call": r, "first_call": outs[0], "that_call": o, "tolerances": [2 * t for t in tols]}
+                break
+    for ci, m in repeat_mismatch.items():
         ctx.violation("oracle", f"{cfg(case, ci)['kind']}:repeated-call",
                       f"call {m['call']} of evaluate_circuits on the SAME circuit list returned {m['that_call']}, the first call returned {m['first_call']} "
                       f"(initial state {'given' if case['init'] is not None else 'absent'}): the objective of a circuit does not depend on how often it was evaluated",
